@@ -130,6 +130,10 @@ def oracle(flags, cfgs, obs, probes, final, mode="memory", prior=0):
                     f"{sorted(after0[D])} - the existing database was not found (connecting must never disturb or hide existing data)")
         db_exists = D is not None and D in after0
         sch_exists = db_exists and Sx is not None and Sx in after0[D]
+        if cd and D is not None and not db_exists:
+            return f"connect({db!r},{sch!r}) with create_database_on_connect=True: database {D} does not exist afterwards"
+        if cs and db_exists and Sx is not None and not sch_exists:
+            return f"connect({db!r},{sch!r}) with create_schema_on_connect=True: schema {D}.{Sx} does not exist afterwards (catalog of {D}: {sorted(after0[D])})"
         if bool(dset) != db_exists:
             return f"connect({db!r},{sch!r}): database_set={bool(dset)} but database exists afterwards={db_exists}"
         if bool(sset) != sch_exists:
